@@ -12,8 +12,12 @@ import (
 type CaseC10 struct {
 	HV  []ref.Box // boxes with H == V: notation round trip as a list
 	Any []ref.Box // boxes at any zooms: object parse / print, voxel id extraction
-	Exp ref.Box   // box with |h-v| <= 5: expansion into single-zoom IDs
+	Exp ref.Box   // box with |h-v| <= 5 (sweep: larger): expansion into single-zoom IDs
+	// Procs: check the case under every other scheduler width as well (large expansions)
+	Procs bool `json:",omitempty"`
 }
+
+func (c *CaseC10) WantsProcs() bool { return c.Procs }
 
 func genC10(t *rapid.T) *CaseC10 {
 	c := &CaseC10{}
@@ -191,6 +195,19 @@ func checkC10(c *CaseC10, fl *Fails) {
 }
 
 func sweepC10(tier string, emit func(*CaseC10)) {
+	// large expansions (thousands to a million IDs), each also under other GOMAXPROCS values
+	maxQuad, maxBin := int64(7), int64(14)
+	if tier != "quick" {
+		maxQuad, maxBin = 10, 20
+	}
+	for d := int64(6); d <= maxQuad; d++ {
+		b := ref.Box{H: 9, X: 300 + d, Y: 511, V: 9 + d, F: -(int64(3) << uint(d)) - 1}
+		emit(&CaseC10{Any: []ref.Box{b}, Exp: b, Procs: true})
+	}
+	for d := int64(6); d <= maxBin; d += 2 {
+		b := ref.Box{H: 4 + d, X: (int64(1) << uint(4+d)) - 1, Y: 5, V: 4, F: -3}
+		emit(&CaseC10{Any: []ref.Box{b}, Exp: b, Procs: true})
+	}
 	for i, n := range roundSizes {
 		if tier == "quick" && i%3 != 1 {
 			continue
@@ -243,7 +260,7 @@ func init() {
 			return out
 		},
 		SweepScopes: func(tier string) []string {
-			return []string{"all boxes at zooms (h,v)<=2 (exhaustive)", "all (h,v) in 0..35 with |h-v|<=5 x 2 extreme boxes"}
+			return []string{"large expansions: v-h = 6..7 (thorough ..10: 4^10 IDs) and h-v = 6..14 (thorough ..20), each under GOMAXPROCS 1,2,3,5,6,7,12,24 as well", "all boxes at zooms (h,v)<=2 (exhaustive)", "all (h,v) in 0..35 with |h-v|<=5 x 2 extreme boxes"}
 		},
 	})
 }
